@@ -3,6 +3,7 @@ package ttlv
 // C17 — tag, enumeration and bit-mask names form a stable bijection.
 
 import (
+	"encoding/xml"
 	"slices"
 	"strconv"
 	"strings"
@@ -97,22 +98,38 @@ func c17SortedEnumTags() []int {
 }
 
 // VerifC17_Tag: for an arbitrary 24-bit tag, the name written by the text
-// encodings is read back as the same number (registered name, or the 0x%06X
-// fallback parsed the way the XML/JSON readers parse it).
-func VerifC17_Tag() {
+// encodings (registered name, or the 0x%06X fallback) is read back as the same
+// number by the real Tag() of the JSON reader (which 0) and of the XML reader
+// in both of its forms (1: TTLV element with a tag attribute, 2: element name).
+func VerifC17_Tag(which, high int) {
 	t := verifNondetInt("tag")
-	verifAssume(t >= 0x420000 && t <= 0xFFFFFF)
+	if high == 1 {
+		verifAssume(t >= 0x800000 && t <= 0xFFFFFF)
+	} else {
+		verifAssume(t >= 0x420000 && t < 0x800000)
+	}
 	verifConfig("real-names")
 	name := TagString(t)
-	if strings.HasPrefix(name, "0x") {
-		parsed, err := strconv.ParseInt(name[2:], 16, 32)
-		verifAssert("hex fallback parses back", err == nil && int(parsed) == t)
-		_, known := tagNames[t]
-		verifAssert("hex fallback only for unregistered tags", !known)
-		return
+	_, known := tagNames[t]
+	verifAssert("hex fallback exactly for unregistered tags", strings.HasPrefix(name, "0x") == !known)
+	var got int
+	switch which {
+	case 0:
+		r := &jsonReader{value: []any{map[string]any{"tag": name, "type": "Integer", "value": "1"}}}
+		got = r.Tag()
+	case 1:
+		el := xml.StartElement{Name: xml.Name{Local: "TTLV"}, Attr: []xml.Attr{{Name: xml.Name{Local: "tag"}, Value: name}}}
+		r := &xmlReader{elem: &el}
+		got = r.Tag()
+	default:
+		if !known {
+			return // unregistered tags are always written in the TTLV element form
+		}
+		el := xml.StartElement{Name: xml.Name{Local: name}}
+		r := &xmlReader{elem: &el}
+		got = r.Tag()
 	}
-	back, err := getTagByName(name)
-	verifAssert("name parses back", err == nil && back == t)
+	verifAssert("written tag is read back as the same number", got == t)
 }
 
 // VerifC17_Enum: enumeration number idx (sorted by tag): for an arbitrary
